@@ -8,6 +8,7 @@
 From Coq Require Import List String NArith ZArith Bool Permutation.
 From Verif Require Import model.MapOrder model.MapRangeExceptions gen.MapRangeSites
   proofs.MapOrderProofs proofs.MapOrderLoop proofs.MapOrderPipelines proofs.MapOrderSites.
+From Verif Require model.FlowCache proofs.FlowCacheProofs.
 Import ListNotations.
 
 (* ---- the finite obligation over the generated site table ---------------------------------------------- *)
@@ -266,3 +267,23 @@ Theorem c08_dtone_pick_unsorted_refuted :
     dtone_pick_unsorted (fun _ a => Some a) l1 <> dtone_pick_unsorted (fun _ a => Some a) l2.
 Proof. exact dtone_pick_unsorted_refuted. Qed.
 Print Assumptions c08_dtone_pick_unsorted_refuted.
+
+(* ---- incidental process state other than map order: the lazily filled flow cache (hunt2 f1) ------------------------ *)
+
+(* PARTIAL.  model/FlowCache.v: the session's UUID source is a counter, reading a stored definition takes `draws d` UUIDs
+   from it.  When no definition of the source needs UUIDs to be read (all flows stored at the current spec version), the
+   UUID a session gives to a child run does not depend on what other look-ups filled the cache with ... *)
+Theorem c08_enter_flow_cache_independent_partial : forall draws src ops u ctr,
+  NoDup (map FlowCache.a_uuid src) ->
+  (forall a, In a src -> draws (FlowCache.a_def a) = 0) ->
+  FlowCache.enter_flow draws src (FlowCache.after src ops) u ctr = FlowCache.enter_flow draws src [] u ctr.
+Proof. exact FlowCacheProofs.enter_flow_cache_independent. Qed.
+Print Assumptions c08_enter_flow_cache_independent_partial.
+
+(* ... and it DOES when a definition is migrated on first load (known finding flow-cache:lazy-migration-draws-uuids:
+   13.x migrations of templating and every legacy migration call uuids.NewV4 on the global source) *)
+Theorem c08_lazy_migration_draws_uuids_refuted :
+  exists draws src ops u ctr, NoDup (map FlowCache.a_uuid src) /\
+    FlowCache.enter_flow draws src (FlowCache.after src ops) u ctr <> FlowCache.enter_flow draws src [] u ctr.
+Proof. exact FlowCacheProofs.lazy_migration_draws_refuted. Qed.
+Print Assumptions c08_lazy_migration_draws_uuids_refuted.
